@@ -142,9 +142,14 @@ impl<'a> SplitMessageBytes<'a> for &'a UnparsedName {
 
                 // This is a compression pointer.
                 [hi, lo, ..] if hi >= 0xC0 => {
-                    let ptr = u16::from_be_bytes([hi, lo]);
-                    if usize::from(ptr - 0xC000) >= start {
-                        return Err(ParseError);
+                    // The pointer is an offset from the start of the
+                    // message, 'start' is relative to the contents (i.e.
+                    // after the 12-byte header). It has to point into the
+                    // contents, to before the beginning of this name.
+                    let ptr = u16::from_be_bytes([hi, lo]) & 0x3FFF;
+                    match usize::from(ptr).checked_sub(12) {
+                        Some(target) if target < start => {}
+                        _ => return Err(ParseError),
                     }
 
                     offset += 2;
